@@ -62,6 +62,17 @@ Definition run_C05 (op : Z) (args : list val) : val :=
                         (if predicted then val_eqb r1 (VInt 0) else is_validation_val r1));
                  vbool predicted]
       | _, _ => bad_args end
+  | 3, [_; tv; VInt idx; _; _; VList [r0; VBytes ssig; VBytes spk]] =>
+      (* composite scripts carrying real signatures and undecodable keys (built and signed by IMPL):
+         the verifier's answer is the MODEL's (= the reference semantics, C06_verify, with the real oracle) *)
+      match tx_of_val tv with
+      | Some t =>
+          let t1 := with_sig_script t idx ssig in
+          let m := model_verify t1 idx ssig spk in
+          VList [VList [m; VBytes ssig; VBytes spk];
+                 vbool (match m with VInt 0 => val_eqb r0 (VInt 0) | _ => is_validation_val r0 end)]
+      | None => bad_args end
+  | 3, [_; _; _; _; _; VErr c] => VList [VErr c; unconstrained]
   | _, [_; _; _; _; _; _; _; _; _; _; VErr c] =>
       (* signing itself raised (SignatureHash refuses SIGHASH_SINGLE without a matching output):
          outside the property's quantifier *)
